@@ -136,6 +136,11 @@ type RecStore struct {
 	Log     []Batch
 	NoLog   bool
 	OnBatch func(i int) // called after batch i was applied (under no lock)
+	// BeforePut / BeforeGC may block: they let a harness order concurrent
+	// writers (Blockchain.Reset's background persister vs its direct SeekGC).
+	BeforePut func(b Batch)
+	BeforeGC  func(prefix []byte)
+	AfterGC   func(prefix []byte)
 }
 
 func NewRecStore(inner storage.Store) *RecStore { return &RecStore{Inner: inner} }
@@ -156,6 +161,9 @@ func (s *RecStore) PutChangeSet(puts map[string][]byte, stor map[string][]byte) 
 		for k, v := range stor {
 			b.Put[k] = cloneB(v)
 		}
+		if s.BeforePut != nil {
+			s.BeforePut(b)
+		}
 		s.mu.Lock()
 		s.Log = append(s.Log, b)
 		n := len(s.Log)
@@ -167,6 +175,12 @@ func (s *RecStore) PutChangeSet(puts map[string][]byte, stor map[string][]byte) 
 
 func (s *RecStore) SeekGC(r storage.SeekRange, keep func(k, v []byte) (bool, bool)) error {
 	b := Batch{Kind: "gc", Put: map[string][]byte{}}
+	if s.BeforeGC != nil {
+		s.BeforeGC(r.Prefix)
+	}
+	if s.AfterGC != nil {
+		defer s.AfterGC(r.Prefix)
+	}
 	err := s.Inner.SeekGC(r, func(k, v []byte) (bool, bool) {
 		kp, cont := keep(k, v)
 		if !kp {
@@ -211,10 +225,13 @@ func ApplyBatches(batches []Batch, n int) *storage.MemoryStore {
 		puts := map[string][]byte{}
 		stor := map[string][]byte{}
 		for k, v := range b.Put {
+			// Values are cloned: in refcounting trie modes the node patches
+			// counts inside slices returned by Store.Get, which would otherwise
+			// write through into the recorded log.
 			if len(k) > 0 && (k[0] == byte(storage.STStorage) || k[0] == byte(storage.STTempStorage)) {
-				stor[k] = v
+				stor[k] = cloneB(v)
 			} else {
-				puts[k] = v
+				puts[k] = cloneB(v)
 			}
 		}
 		_ = m.PutChangeSet(puts, stor)
@@ -256,6 +273,7 @@ type Opts struct {
 	Store storage.Store
 	Cfg   func(*config.Blockchain) // node-local options
 	Proto func(*config.Blockchain) // protocol options (must be the same on all replicas of a family)
+	NoRun bool                     // do not start the dispatcher (needed for Blockchain.Reset); such a node is never Closed
 }
 
 // Node is one replica.
@@ -328,7 +346,11 @@ func New(o Opts) (n *Node, err error) {
 		}
 	}
 	n.done = make(chan struct{})
-	go func() { n.BC.VerifRunNoTimer(); close(n.done) }()
+	if o.NoRun {
+		close(n.done)
+	} else {
+		go func() { n.BC.VerifRunNoTimer(); close(n.done) }()
+	}
 	n.E = neotest.NewExecutor(tb, n.BC, n.Validator, n.Committee)
 	return n, nil
 }
@@ -336,6 +358,10 @@ func New(o Opts) (n *Node, err error) {
 // Close stops the node (flushing, as a graceful shutdown does).
 func (n *Node) Close() {
 	if n.BC == nil {
+		return
+	}
+	if n.Opts.NoRun {
+		n.BC = nil
 		return
 	}
 	n.BC.Close()
